@@ -25,6 +25,8 @@ import (
 func TestMain(m *testing.M) {
 	if os.Getenv("VERIF_DEBUG") == "" {
 		logger.Disable()
+	} else if os.Getenv("VERIF_DEBUG") == "2" {
+		logger.SetDebug()
 	}
 	os.Exit(m.Run())
 }
@@ -82,11 +84,11 @@ func genDL(t *rapid.T) DLCase {
 		case 0:
 			b.NeverUnchoke = true
 		case 1:
-			b.ChokeAfter, b.ChokeMs = rapid.IntRange(1, 5).Draw(t, "ca"), rapid.SampledFrom([]int{1, 20, 200}).Draw(t, "cms")
+			b.ChokeAfter, b.ChokeMs = rapid.IntRange(1, 5).Draw(t, "ca"), rapid.SampledFrom([]int{1, 20, 200, 120000}).Draw(t, "cms") // 120000: chokes for good while it may hold a piece
 		case 2:
 			b.DisconnectAfter = rapid.IntRange(1, 6).Draw(t, "da")
 		case 3:
-			b.StallAfter, b.StallMs = rapid.IntRange(0, 4).Draw(t, "sa"), rapid.SampledFrom([]int{50, 500, 4000}).Draw(t, "sms")
+			b.StallAfter, b.StallMs = rapid.IntRange(0, 4).Draw(t, "sa"), rapid.SampledFrom([]int{50, 500, 4000, 120000}).Draw(t, "sms") // 120000: goes silent for good (unchoked, connected)
 		case 4:
 			b.CorruptBlocks = []int{rapid.IntRange(0, 5).Draw(t, "cb")}
 		case 5:
